@@ -69,6 +69,10 @@ checks = {
  "C14": ("A/B", "exhaustive enumeration of (policy predicate, batch, capacity, prefill) with recorded call logs; explicit-state BFS over closure install/remove histories with per-state dispatch checks",
          "Push policy: all 16 accept/reject predicates over 4 value classes x every batch of length 1..3 x capacity none/1/2/3 x pre-filled 0..2 x no-nesting on/off; the policy's call log, the stored content and Err() are compared with the documented rule (consulted once per value while room remains, stop at the first rejection, keep what was appended, nothing rejected stored). Other closures: BFS to fix-point over installing (accepting / rejecting / sentinel variants) and removing (both forms) validity, presentation, equality, unmarshal, marshal closures (evaluator on Conditions) for all five kinds and Conditions; in every reachable state Valid, String, IsEqual, Unmarshal, Marshal and Evaluate are compared with the closure's sentinel or with a twin that never had a closure; BASIC refuses a presentation policy.",
          "Trusted: closures are pure and total; reference rule written from the statement.", "§3 C14"),
+
+ "C12": ("B", "exhaustive enumeration of form assignments (native / alias / alias with String / pointers) over nested positions, differential against the all-native tree",
+         "For every base tree (nested Stacks, Conditions with leaf and Stack expressions, nil gaps, empty stacks, multi-byte leaves) every assignment of a form to every nested Stack position (6 forms) and Condition position (5 forms) is built and compared with the all-native tree from the same description: String, Unmarshal, per-node Kind/Len/IsNesting/String, Condition Len/IsNesting/IsFIFO, Traverse over every path, IsEqual both ways, Defrag and Transfer results; plus no-nesting refusal (Push, SetExpression), Transfer-into and ConvertStack/ConvertCondition for every form (underlying instance by address) and for nil, zero aliases, nil pointers and unrelated types.",
+         "Trusted: the native tree as the oracle (its own behaviour is covered by the other properties); four user-declared alias types.", "§3 C12"),
 }
 not_built = {f"C{i:02d}" for i in range(1,21)} - set(checks)
 m = {
